@@ -48,9 +48,11 @@ def _strip_comments(src: str) -> str:
 def build(timeout=3000):
     """lake build (library + driver), serialised with a file lock. Returns (ok, log, seconds)."""
     t0 = time.time()
+    import genindex
     lock = open(os.path.join(LEAN, ".build.lock"), "w")
     fcntl.flock(lock, fcntl.LOCK_EX)
     try:
+        genindex.gen_lean()
         p = subprocess.run(["lake", "build"], cwd=LEAN, capture_output=True, text=True, timeout=timeout)
     except FileNotFoundError as e:
         raise InfraError(f"lake not found: {e}")
